@@ -997,6 +997,9 @@ func (vc *VC) predeclareSliceUFs(pkg *types.Package) {
 		if sf.Body != nil || len(sf.Params) != 1 || !strings.HasPrefix(sf.PTypes[0], "[]") {
 			continue
 		}
+		if pkg == nil || sf.Pkg != pkg.Path() {
+			continue // only in VCs of the package that declares the function
+		}
 		st := &State{pc: "true", heap: map[string]string{}}
 		env := &SpecEnv{vc: vc, pkg: pkg, st: st, old: st, vars: map[string]Val{}}
 		if sf.Pkg != "" {
